@@ -7,4 +7,10 @@ META = {
   "note": "Trusts the harness's reading of the field documentation (don't-care sets listed in the evidence assumptions) and LMDB round-tripping of the synthetic entries.",
   "technique": "runtime monitoring: reference-filter oracle over real retrieve_txs executions on generated logs/queries",
  },
+ "C01": {
+  "text": "Runtime monitoring of the real selection and initiation code: an invariant oracle (independent spendability predicate, exact u128 conservation, minimum fee, unique change paths, no panic, bounded steps, nothing persisted on refusal) evaluated on every execution of an exhaustive small scope plus several 10^5 sampled wallets/parameter draws (hook H1, in-memory backend) and on API-level sends, estimates, late-locked sends and invoice payments against a real LMDB wallet and chain.",
+  "design_ref": "DESIGN.md section 5 C01",
+  "note": "Trusts grin_core::libtx::tx_fee as the network minimum and the harness's own spendability predicate; workload B covers tens (quick) to hundreds (thorough) of API calls, the bulk of the input space is covered at the selection-function boundary.",
+  "technique": "runtime monitoring: conservation/eligibility invariant oracle over real selection executions (exhaustive small scope + sampled), API-level replay with LMDB state diff",
+ },
 }
